@@ -23,16 +23,22 @@ pub fn new_stub(value: u64) -> BaseElement {
     mk(value % M)
 }
 
-/// permutation double: every state word is mixed with its neighbour (field addition), so the result
-/// depends on every word and on the number of applications
+/// permutation double: one round of mixing in which every word receives its neighbours at distances
+/// +1, +2, -1 and -4 (with different weights), so that every digest word sees the capacity word, both
+/// integer-input words and its neighbours, and repeated applications differ
 pub fn perm_stub(state: &mut [BaseElement; STATE_WIDTH]) {
-    let first = state[0];
+    let old = *state;
+    let w = STATE_WIDTH;
     let mut i = 0;
-    while i < STATE_WIDTH - 1 {
-        state[i] = state[i] + state[i + 1].double();
+    while i < w {
+        state[i] = old[i]
+            + old[(i + 1) % w].double()
+            + old[(i + 2) % w].double().double()
+            + old[(i + w - 1) % w].double().double().double()
+            + old[(i + w - 4) % w]
+            + BaseElement::ONE;
         i += 1;
     }
-    state[STATE_WIDTH - 1] = state[STATE_WIDTH - 1] + first.double() + mk(1);
 }
 
 /// the documented encoding of a byte string: 7-byte little-endian chunks, the last one followed by a
